@@ -182,12 +182,15 @@ def radar_inversion(c, rec):
 # ------------------------------------------------------------------------------------------------
 def _iod_cases():
     return st.builds(
-        lambda t, el, frac, method, extra: {"t": iso(t), **el, "frac": frac, "method": method, "extra": extra},
+        lambda t, el, frac, method, extra, det: {"t": iso(t), **el, "frac": frac, "method": method, "extra": extra, "det_on_first": det},
         eop_instants(margin_days=3), so.elements(e_cap=0.01, min_perigee_alt=300.0, a_min=6800.0, a_max=45000.0),
         st.one_of(st.floats(0.05, 0.395), st.sampled_from([0.1, 0.25, 0.34, 0.36, 0.38, 0.395])),
         st.sampled_from(["lambert_universal", "lambert_battin"]),
         # earlier stored observations of the same target inside the window (seconds before the last stored one), any insertion order
-        st.lists(st.integers(30, 570), max_size=3, unique=True))
+        st.lists(st.integers(30, 570), max_size=3, unique=True),
+        # the look-back window opens at the detection time: before every stored observation, or exactly at the epoch of the stored
+        # observation (the estimate agent's flow: the maneuver is flagged by the observation that is then used for IOD)
+        st.booleans())
 
 
 @PROP.clause("lambert_iod", strategy=_iod_cases, quick=300, thorough=8000, shards=8)
@@ -218,22 +221,25 @@ def lambert_iod(c, rec):
     kit.fresh_db()
     db = getDBConnection()
     jd0, jd1, jd2 = (datetimeToJulianDate(t) for t in (t0, t1, t2))
+    if c.get("det_on_first"):
+        jd1 = ScenarioTime(600.0).convertToJulianDate(jd0)  # the stored observation carries exactly the Julian date the window opens at
+        rec.label("window_opens_on_stored_observation")
     db.insertData(Epoch(julian_date=jd0, timestampISO=t0.isoformat(timespec="microseconds")),
                   Epoch(julian_date=jd1, timestampISO=t1.isoformat(timespec="microseconds")),
                   Epoch(julian_date=jd2, timestampISO=t2.isoformat(timespec="microseconds")),
                   AgentModel(unique_id=4001, name="tgt"), AgentModel(unique_id=5001, name="radar1"), AgentModel(unique_id=5002, name="radar2"))
     meas = _radar_measurement()
 
-    def observe(state, when, sid):
+    def observe(state, when, sid, jd=None):
         # site on the ground under the target (target at the zenith, slightly displaced)
         ecef = eci2ecef(state, when)
         lat, lon, _alt = geodesy.ecef2lla(ecef[:3], 6378.1363, 0.081819221456**2)
         site = lla2ecef(np.array([lat * 0.999 + 0.001, lon + 0.002, 0.05]))
         sensor = ecef2eci(site, when)
-        return Observation.fromMeasurement(epoch_jd=datetimeToJulianDate(when), target_id=4001, tgt_eci_state=state, sensor_id=sid,
+        return Observation.fromMeasurement(epoch_jd=datetimeToJulianDate(when) if jd is None else jd, target_id=4001, tgt_eci_state=state, sensor_id=sid,
                                            sensor_eci=sensor, sensor_type="Radar", measurement=meas, noisy=False)
 
-    ob1 = observe(s1, t1, 5001)
+    ob1 = observe(s1, t1, 5001, jd1)
     ob2 = observe(s2, t2, 5002)
     stored = [ob1]
     for back in c.get("extra", []):
@@ -245,7 +251,7 @@ def lambert_iod(c, rec):
         stored.reverse()  # insertion order is not chronological order
     db.insertData(*stored)
     iod = LambertIOD.fromConfig(InitialOrbitDeterminationConfig(name=c["method"], minimum_observation_spacing=60), 4001, jd0)
-    sol = iod.determineNewEstimateState([ob2], ScenarioTime(0.0), ScenarioTime(600.0 + dt))
+    sol = iod.determineNewEstimateState([ob2], ScenarioTime(600.0 if c.get("det_on_first") else 0.0), ScenarioTime(600.0 + dt))
     if not sol.convergence:
         raise Violation("iod_rejected", f"LambertIOD refused two noise-free radar observations {dt}s = {dt / period:.4f} of a period apart (a={a!r}, e={e!r}): '{sol.message}'")
     got = np.asarray(sol.state_vector, dtype=float)
